@@ -4,6 +4,7 @@ import (
 	"fmt"
 	"go/token"
 	"go/types"
+	"regexp"
 	"sort"
 	"strings"
 
@@ -31,6 +32,9 @@ func init() {
 		ruleR16ac(c)
 		ruleR14a(c, "R16b", func(kind string) bool { return strings.HasPrefix(kind, "monitor.") })
 		ruleR16d(c)
+		// R16e: a write whose log was handed off cannot report failure — the methods publish only on the
+		// nil-error edge, so such a path persists a change that is never published (shared with C06 R06f)
+		ruleR06fAs(c, "R16e", "a path returns an error although the log was already handed to the batcher: the change is persisted but its event is never published (the write methods publish on the nil-error edge only)")
 	})
 }
 
@@ -57,7 +61,19 @@ func (m *cmdModel) effects(c *Ctx) []effectSite {
 				if _, base, ok := storeToField(ins, m.fLastLog); ok && !freshBase(base) {
 					out = append(out, effectSite{fn, ins, "store.lastLog"})
 				}
+				// any other field of the Commander: state that outlives the request
+				if st, ok := ins.(*ssa.Store); ok {
+					if fa, ok := st.Addr.(*ssa.FieldAddr); ok && isNamed(fa.X.Type(), pkgCommand, "Commander") && !freshBase(fa.X) {
+						f := fieldOfAddr(fa)
+						if f != nil && !sameField(f, m.fLastTXID) && !sameField(f, m.fLastLog) {
+							out = append(out, effectSite{fn, ins, "store." + f.Name()})
+						}
+					}
+				}
 				if ci, ok := ins.(ssa.CallInstruction); ok {
+					if kind := commanderStateMutation(ci); kind != "" {
+						out = append(out, effectSite{fn, ins, kind})
+					}
 					if isCallTo(ci, m.batcherAppend) {
 						out = append(out, effectSite{fn, ins, "batcher.Append"})
 					}
@@ -72,6 +88,47 @@ func (m *cmdModel) effects(c *Ctx) []effectSite {
 		}
 	}
 	return out
+}
+
+var mutatingName = regexp.MustCompile(`^(Set|Add|Put|Store|Delete|Remove|Insert|Append|Push|Pop|Inc|Dec|Clear|Reset|Purge|Update|Write|Save|Swap|CompareAndSwap|LoadOrStore)`)
+
+// commanderStateMutation: a call of a mutating-looking method (Set…, Add…, Delete…, …) on a value held in a
+// field of the Commander, other than the fields whose protocol is checked elsewhere (the embedded batcher and the
+// monitor are effects of their own; mu / running are synchronisation).
+func commanderStateMutation(ci ssa.CallInstruction) string {
+	cc := ci.Common()
+	var recv ssa.Value
+	var name string
+	if cc.IsInvoke() {
+		recv, name = cc.Value, cc.Method.Name()
+	} else if f := cc.StaticCallee(); f != nil && f.Signature.Recv() != nil && len(cc.Args) > 0 {
+		recv, name = cc.Args[0], origName(f)
+	} else {
+		return ""
+	}
+	if !mutatingName.MatchString(name) {
+		return ""
+	}
+	// receiver: (address of / load of) a field of *Commander
+	var fld *types.Var
+	switch x := recv.(type) {
+	case *ssa.FieldAddr:
+		if isNamed(x.X.Type(), pkgCommand, "Commander") {
+			fld = fieldOfAddr(x)
+		}
+	case *ssa.UnOp:
+		if f, base := anyFieldRead(x); f != nil && isNamed(base.Type(), pkgCommand, "Commander") {
+			fld = f
+		}
+	}
+	if fld == nil {
+		return ""
+	}
+	switch fld.Name() {
+	case "mu", "running", "Batcher", "monitor":
+		return ""
+	}
+	return "state." + fld.Name() + "." + name
 }
 
 // notDryAt: is ins reached only through edges establishing DryRun == false?
@@ -172,6 +229,8 @@ func effectConsequence(kind string) string {
 		return "advances the in-memory chain head."
 	case kind == "batcher.Append" || kind == "store.InsertLogs":
 		return "persists a log entry."
+	case strings.HasPrefix(kind, "state.") || strings.HasPrefix(kind, "store."):
+		return "changes commander state that later requests read: the history after a preview differs from the history without it."
 	default:
 		return "publishes an event for a change that is never persisted."
 	}
